@@ -1,5 +1,6 @@
 """C09 — proposal pools follow the prior inside the contour and never leave the prior (partial: not the distribution)."""
 import contextlib
+from . import core  # noqa: E402
 import logging
 import math
 import shutil
@@ -1428,12 +1429,92 @@ def correspond(ctx):
         radial_oracle(ctx)
         bound_shapes(ctx)
         real_runs(ctx)
+        if not ctx.quick:
+            # extra evidence only (the statistical clause is not claimed): exact-binomial box test of real rejection pools
+            rejection_pool_distribution(ctx)
     finally:
         cleanup()
 
 
+def binom_two_sided_log10(k, n, p):
+    """log10 of the exact two-sided binomial tail probability P(|X - np| >= |k - np|), X ~ Bin(n, p) (upper bound: twice
+    the smaller one-sided tail)"""
+    from scipy.stats import binom
+    lo = binom.logcdf(k, n, p)
+    hi = binom.logsf(k - 1, n, p)
+    return float(min(0.0, (min(lo, hi) + math.log(2.0)) / math.log(10.0)))
+
+
+def rejection_pool_distribution(ctx, n=40000):
+    """STATISTICAL failing-input search for the clause 'the pool is distributed as the prior': the real
+    RejectionProposal.populate on models whose own new_point / new_point_log_prob propose from a density that is NOT the
+    prior (the only case in which the acceptance weights matter).  Judged by exact binomial bounds on the prior mass of
+    fixed boxes, at false-alarm probability < 1e-12 per box (a correct sampler fails with probability < 1e-10 overall)."""
+    from scipy.stats import norm
+    from nessai.model import Model
+    from nessai.proposal.rejection import RejectionProposal
+    from nessai.livepoint import numpy_array_to_live_points
+
+    def trunc_logpdf(v, sd, b):
+        z = norm.cdf(b / sd) - norm.cdf(-b / sd)
+        return norm.logpdf(v, scale=sd) - math.log(z)
+
+    for sd_prop, sd_prior in ((2.0, 1.0), (1.0, 1.5), (3.0, 0.75)):
+        class M(Model):
+            names = ["x", "y"]
+            bounds = {"x": [-5.0, 5.0], "y": [-5.0, 5.0]}
+
+            def log_prior(self, x):
+                lp = np.log(self.in_bounds(x), dtype="float")
+                for nm in self.names:
+                    lp = lp + trunc_logpdf(x[nm], sd_prior, 5.0)
+                return lp
+
+            def log_likelihood(self, x):
+                return np.zeros(x.size)
+
+            def new_point(self, N=1):
+                out = np.empty((0, 2))
+                while len(out) < N:
+                    c = np.random.randn(2 * N, 2) * sd_prop
+                    out = np.concatenate([out, c[(np.abs(c) < 5.0).all(axis=1)]])
+                return numpy_array_to_live_points(out[:N], self.names)
+
+            def new_point_log_prob(self, x):
+                return trunc_logpdf(x["x"], sd_prop, 5.0) + trunc_logpdf(x["y"], sd_prop, 5.0)
+
+        np.random.seed(ctx.rng.getrandbits(31))
+        m = M()
+        p = RejectionProposal(m, poolsize=n)
+        p.initialise() if hasattr(p, "initialise") else None
+        p.populate(N=n)
+        pool = np.asarray(p.samples)
+        case = {"kind": "rejection-pool-distribution", "proposal_sd": sd_prop, "prior_sd": sd_prior, "drawn": n, "pool": int(pool.size)}
+        if pool.size < 200:
+            ctx.case(("rej-dist", sd_prop, sd_prior), False, case, kind="rejection-dist:tiny-pool")
+            continue
+        z = norm.cdf(5.0 / sd_prior) - norm.cdf(-5.0 / sd_prior)
+        for q in (0.25, 0.5, 0.75):
+            half = norm.ppf(0.5 + q * z / 2.0) * sd_prior          # P_prior(|x| < half) = q for one coordinate
+            for nm in ("x", "y"):
+                k = int(np.count_nonzero(np.abs(pool[nm]) < half))
+                l10 = binom_two_sided_log10(k, int(pool.size), q)
+                if l10 < -12:
+                    ctx.oracle_fail("RejectionProposal.populate:pool-not-distributed-as-the-prior",
+                                    f"prior N(0,{sd_prior}^2), own proposal N(0,{sd_prop}^2): {k} of {pool.size} pool points have "
+                                    f"|{nm}| < {half:.4f}, a region of prior mass {q} (two-sided binomial tail 1e{l10:.0f})",
+                                    {**case, "coord": nm, "q": q, "k": k})
+        ctx.case(("rej-dist", sd_prop, sd_prior), True, case, kind="rejection-dist")
+
+
 def search(ctx):
     """enlarged failing-input search with the oracle only (called when a proof / the tie broke)"""
+    try:
+        rejection_pool_distribution(ctx)
+    except core.Infra:
+        raise
+    except Exception as e:  # noqa
+        ctx.extra["rejection_pool_distribution_error"] = repr(e)[:300]
     lines, impls, cases = [], [], []
     t0 = time.time()
     budget = ctx.scale(60, 600)
